@@ -810,6 +810,14 @@ def step (w : World) (line : String) : World × Out :=
         | .error _ => (w, ("err serde", if ok then "ok" else "err *"))
       else badop
     | _, _ => badop
+  | ["sszmeta", k] =>
+    -- SSZ: a list is variable-size (4-byte offset when nested); a vector of fixed-size elements is
+    -- fixed-size with length k * N, otherwise variable-size
+    let out := if k = "list" then "ok fixed=false len=4 dfixed=false dlen=4"
+      else match E.fixedLen with
+        | some sz => s!"ok fixed=true len={sz * cfg.N} dfixed=true dlen={sz * cfg.N}"
+        | none => "ok fixed=false len=4 dfixed=false dlen=4"
+    if k = "list" ∨ k = "vec" then (w, (out, out)) else badop
   | ["unsszprev", hs, k] =>
     match parseNat hs with
     | some hs =>
